@@ -247,6 +247,9 @@ fn sortable_key() -> BoxedStrategy<Val> {
     prop_oneof![
         4 => gv::int_val(),
         3 => gv::str_val(),
+        // ASCII strings that differ only in characters next to the letters in the code table
+        // (a case fold that touches more than letters makes them equal)
+        2 => crate::runner::one_of(&["[a]", "{a}", "@", "`", "^a", "~a", "x_y", "x\u{7f}y", "a b", "a\u{0}b", "\\", "|", "]", "}", "a@", "a`"]).prop_map(|s| Val::Str(s.to_string())),
         2 => gv::float_val().prop_filter("no nan", |v| !v.contains_nan()),
         1 => any::<bool>().prop_map(Val::Bool),
         1 => Just(Val::None),
